@@ -86,6 +86,8 @@ type scriptOut struct {
 	Skipped   []string       `json:"skipped,omitempty"`
 	Asserts   map[string]int `json:"asserts,omitempty"`
 	Plan      string         `json:"plan"`
+	GaveUp    string         `json:"gave_up,omitempty"`
+	SlowCalls int            `json:"slow_calls,omitempty"`
 	Detail    []rec          `json:"detail,omitempty"`
 	Probe     map[string]any `json:"probe,omitempty"`
 	Host      map[string]any `json:"host,omitempty"`
@@ -120,6 +122,10 @@ type procEnv struct {
 	host    map[string]any
 	insts   int
 	hostErr string
+
+	grace        *time.Timer
+	slowCalls    int
+	blockedCalls int
 }
 
 var (
@@ -281,6 +287,7 @@ func intOf(v any) int {
 
 type inst struct {
 	p        *procEnv
+	eng      *engineEnv
 	label    string
 	mod      api.Module
 	shadow   []byte
@@ -301,7 +308,7 @@ func (p *procEnv) newInst(e *engineEnv, label string, second ...bool) (*inst, er
 		return nil, err
 	}
 	p.insts++
-	return &inst{p: p, label: label, mod: mod, shadow: make([]byte, memSize)}, nil
+	return &inst{p: p, eng: e, label: label, mod: mod, shadow: make([]byte, memSize)}, nil
 }
 
 var (
@@ -366,7 +373,6 @@ func fnTag(c *wcall) string {
 
 // run executes call k of the script on this instance and returns its trace record.
 func (in *inst) run(cc *callCtx, k int, c *wcall) rec {
-	p := in.p
 	mem, ok := in.mod.Memory().Read(0, memSize)
 	if !ok || in.mod.Memory().Size() != memSize {
 		return rec{Fn: c.Fn, Ret: "harness:memory-size-changed"}
@@ -378,8 +384,17 @@ func (in *inst) run(cc *callCtx, k int, c *wcall) rec {
 		}
 	}
 	r := rec{Fn: c.Fn}
-	res, err := in.mod.ExportedFunction(c.Fn).Call(p.ctx, c.Args...)
+	res, err, blocked := in.callGuarded(c)
 	switch {
+	case blocked:
+		// Differential watchdog (see callGuarded): under the default configuration
+		// nothing can block (stdin is empty, sleeping is faked, no sockets).
+		in.exited = true
+		r.Ret = "blocked"
+		cc.find(fnTag(c)+":blocks-under-default-config",
+			fmt.Sprintf("%s did not return although %d control calls on a fresh instance of the same engine completed meanwhile", c.Fn, controlRounds),
+			k, in.label, nil, "the call returns (no real sleep, stdin at EOF, no sockets)")
+		return r
 	case err != nil:
 		r.Ret = errClass(err)
 		if strings.HasPrefix(r.Ret, "exit(") {
@@ -414,6 +429,61 @@ func (in *inst) run(cc *callCtx, k int, c *wcall) rec {
 	}
 	in.directAsserts(cc, k, c, &r, where)
 	return r
+}
+
+const controlRounds = 3000
+
+// callGuarded makes the call in its own goroutine. If it has not returned
+// after a grace period, a control (sched_yield on a fresh instance of the same
+// engine) is run up to controlRounds paced rounds; the call counts as blocked
+// only if it still has not returned after all of them. The verdict is the
+// logical fact "control completed N times, subject not once"; the wall clock
+// only paces the rounds. A blocked call keeps its goroutine and instance
+// forever, so the process gives up after two of them (see runScript).
+func (in *inst) callGuarded(c *wcall) (res []uint64, err error, blocked bool) {
+	done := make(chan struct{})
+	fn := in.mod.ExportedFunction(c.Fn)
+	go func() {
+		defer close(done)
+		res, err = fn.Call(in.p.ctx, c.Args...)
+	}()
+	if in.p.grace == nil {
+		in.p.grace = time.NewTimer(time.Hour)
+	}
+	t := in.p.grace
+	if !t.Stop() {
+		select {
+		case <-t.C:
+		default:
+		}
+	}
+	t.Reset(2 * time.Second)
+	select {
+	case <-done:
+		return res, err, false
+	case <-t.C:
+	}
+	ctl, cerr := in.p.newInst(in.eng, "control")
+	if cerr != nil {
+		<-done
+		return res, err, false
+	}
+	defer ctl.mod.Close(in.p.ctx)
+	for i := 0; i < controlRounds; i++ {
+		if _, e := ctl.mod.ExportedFunction("sched_yield").Call(in.p.ctx); e != nil {
+			<-done
+			return res, err, false
+		}
+		select {
+		case <-done:
+			in.p.slowCalls++
+			return res, err, false
+		default:
+		}
+		time.Sleep(time.Millisecond)
+	}
+	in.p.blockedCalls++
+	return nil, nil, true
 }
 
 // diffRanges returns the byte ranges where cur differs from old; differing
@@ -758,6 +828,12 @@ func (p *procEnv) runScript(sc *scriptCase) *scriptOut {
 		calls = genScript(p.sigs, sc.Seed, sc.N)
 	}
 	so := &scriptOut{ID: sc.ID, Needles: len(p.needles), Skipped: p.skipped}
+	if p.blockedCalls >= 2 {
+		// two calls of this process are blocked for good (already reported): do not
+		// spend the watchdog on every further script
+		so.GaveUp = "process-has-blocked-calls"
+		return so
+	}
 	cc := &callCtx{so: so, scan: true, scanned: map[[32]byte]bool{}}
 	if sc.ID%64 == 0 {
 		so.Host = p.host
